@@ -133,28 +133,42 @@ class Ctx:
         self.findings = []      # dicts: {sig, what, replay}
         self.notes = []
         self.quick = tier == "quick"
+        self._built = {}
 
     # ---------------------------------------------------------------- build
-    def build(self, race=False):
-        out = os.path.join(VERIF, "build", "verifdrv" + ("-race" if race else ""))
-        os.makedirs(os.path.dirname(out), exist_ok=True)
+    def build(self, race=False, prog="verifdrv"):
+        """Builds harness/cmd/<prog> against REPO's working tree with -tags verif (Go's build cache
+        is content-addressed, so an edited /repo is always rebuilt). With VERIF_REPO set to another
+        checkout, a private copy of the harness module is used and the binary lands in the scratch dir."""
+        key = (prog, race)
+        if key in self._built:
+            return self._built[key]
         hdir = os.path.join(VERIF, "harness")
-        gosum = os.path.join(hdir, "go.sum")
-        shutil.copy(os.path.join(REPO, "go.sum"), gosum)
+        outdir = os.path.join(VERIF, "build")
+        if REPO != "/repo":
+            priv = os.path.join(self.scratch, "harness")
+            if not os.path.exists(priv):
+                shutil.copytree(hdir, priv)
+                gm = open(os.path.join(priv, "go.mod")).read().replace("=> /repo", "=> " + REPO)
+                open(os.path.join(priv, "go.mod"), "w").write(gm)
+            hdir, outdir = priv, os.path.join(self.scratch, "bin")
+        os.makedirs(outdir, exist_ok=True)
+        out = os.path.join(outdir, prog + ("-race" if race else ""))
+        shutil.copy(os.path.join(REPO, "go.sum"), os.path.join(hdir, "go.sum"))
         g, _ = go_bin()
-        cmd = [g, "build", "-tags", "verif"] + (["-race"] if race else []) + ["-o", out, "./cmd/verifdrv"]
+        cmd = [g, "build", "-tags", "verif"] + (["-race"] if race else []) + ["-o", out, "./cmd/" + prog]
         env = go_env()
         if race:
             env["CGO_ENABLED"] = "1"
         p = subprocess.run(cmd, cwd=hdir, env=env, capture_output=True, text=True)
         if p.returncode != 0:
             raise Machinery("harness build failed:\n" + p.stdout + p.stderr)
+        self._built[key] = out
         return out
 
-    def drv(self, cmd, in_obj, race=False, timeout=1200, env_extra=None, name=None):
-        """Run one verifdrv command; returns the list of ndjson events it wrote."""
-        binp = self.build(race) if not getattr(self, "_built_%s" % race, None) else getattr(self, "_built_%s" % race)
-        setattr(self, "_built_%s" % race, binp)
+    def drv(self, cmd, in_obj, race=False, timeout=1200, env_extra=None, name=None, prog="verifdrv"):
+        """Run one harness command; returns the list of ndjson events it wrote."""
+        binp = self.build(race, prog)
         name = name or cmd
         fin = os.path.join(self.scratch, name + ".in.json")
         fout = os.path.join(self.scratch, name + ".out.ndjson")
@@ -167,10 +181,10 @@ class Ctx:
         try:
             p = subprocess.run([binp, cmd, fin, fout], env=env, capture_output=True, text=True, timeout=timeout)
         except subprocess.TimeoutExpired:
-            raise Machinery("verifdrv %s timed out after %ds" % (cmd, timeout))
-        if p.returncode != 0:
-            raise Machinery("verifdrv %s failed rc=%d:\n%s" % (cmd, p.returncode, (p.stdout + p.stderr)[-4000:]))
+            raise Machinery("%s %s timed out after %ds" % (prog, cmd, timeout))
         self.last_drv_stderr = p.stderr
+        if p.returncode != 0:
+            raise Machinery("%s %s failed rc=%d:\n%s" % (prog, cmd, p.returncode, (p.stdout + p.stderr)[-4000:]))
         evs = []
         with open(fout) as f:
             for line in f:
